@@ -215,6 +215,13 @@ func TestVX_C03(t *testing.T) {
 		run("key:y+p-overflow", b.px, bytes.Repeat([]byte{0xff}, 32), b.e, b.r, b.s)
 		// off-curve key for which the equation would hold if the curve check were missing: (x, y+1)
 		run("key:y+1", b.px, b32(modN(new(big.Int).Add(bi(b.py), one))), b.e, b.r, b.s)
+		// keys that miss the curve only in structured bit sets of y^2 (value or Montgomery form)
+		if bi0 < 2 {
+			xs, ys, names := sm2ref.NearCurvePoints(P)
+			for i := range xs {
+				run("key:near-curve:"+names[i], b32(xs[i]), b32(ys[i]), b.e, b.r, b.s)
+			}
+		}
 		// signature for a different key / digest
 		run("other-digest", b.px, b.py, vx.Fill("c03other", 32), b.r, b.s)
 		run("swapped-rs", b.px, b.py, b.e, b.s, b.r)
